@@ -957,7 +957,10 @@ impl<'a> WriteTxn<'a> {
 
         // 1) Append WAL and fsync (durability Full by default).
         {
-            let mut wal = self.engine.wal.lock().unwrap();
+            let mut wal_guard = self.engine.wal.lock().unwrap();
+            // If anything below fails the transaction is reported as failed, so its records
+            // must not stay in the log (they would be replayed as committed after reopen).
+            let mut wal = WalRollback::new(&mut wal_guard)?;
             wal.append(&WalRecord::BeginTx { txid: self.txid })?;
 
             for (external_id, label_id, internal_id) in &self.created_nodes {
@@ -1204,6 +1207,7 @@ impl<'a> WriteTxn<'a> {
             // wal.append calls flush internally, we just need fsync at end of commit
             wal.append(&WalRecord::CommitTx { txid: self.txid })?;
             wal.fsync()?;
+            wal.disarm();
         }
 
         #[cfg(luqing_studio_nervusdb_verif)]
@@ -1245,6 +1249,49 @@ impl<'a> WriteTxn<'a> {
         self.engine.next_txid.fetch_add(1, Ordering::Relaxed);
 
         Ok(())
+    }
+}
+
+/// Cuts the log back to where a transaction started unless the transaction got through.
+struct WalRollback<'a> {
+    wal: &'a mut Wal,
+    start: u64,
+    armed: bool,
+}
+
+impl<'a> WalRollback<'a> {
+    fn new(wal: &'a mut Wal) -> Result<Self> {
+        let start = wal.len()?;
+        Ok(Self {
+            wal,
+            start,
+            armed: true,
+        })
+    }
+
+    fn disarm(&mut self) {
+        self.armed = false;
+    }
+}
+
+impl std::ops::Deref for WalRollback<'_> {
+    type Target = Wal;
+    fn deref(&self) -> &Wal {
+        self.wal
+    }
+}
+
+impl std::ops::DerefMut for WalRollback<'_> {
+    fn deref_mut(&mut self) -> &mut Wal {
+        self.wal
+    }
+}
+
+impl Drop for WalRollback<'_> {
+    fn drop(&mut self) {
+        if self.armed {
+            let _ = self.wal.truncate_to(self.start);
+        }
     }
 }
 
